@@ -768,13 +768,16 @@ def _check_c18(tier, seed, macro_profile="macrodev"):
                    family=c.get("family", c["kind"]), program="\n".join(NO_STD_HEADER[:4]) + "\n" + unit_text(u), observed="%s: %s" % (code, msg[:300]), expected="no diagnostic",
                    replay_kind="compile", expect="accept", header="no_std")
         res.violations.append((dict(category="name-capture", shape="/".join(captured)), rec))
-    # bare scope: declarations whose arbitrary-int and helper types are all written through a path (`arbitrary_int::u3`, `inner::E`), on a native base,
+    # bare scope: every declaration on a native base, with its arbitrary-int and helper types written through a path (`arbitrary_int::u3`, `inner::E`; catalog.with_path_types),
     # in a module that imports no arbitrary_int name at all -- generated code must reach arbitrary_int by path, never through what the user happens to import
     b_units = []
     for u in units:
         c = u.meta["case"]
-        if u.uid in clean and c["kind"] == "bitfield" and c.get("path_types") and c["base"] == c["storage"]:
-            b_units.append(decl_unit(dict(c, bare_scope=True), docs=True, uid=u.uid + "/bare-scope"))
+        if u.uid in clean and c["kind"] == "bitfield" and c["base"] == c["storage"]:
+            cc = c if c.get("path_types") else catalog.with_path_types(c, c["id"])
+            if any(f["kind"] == "uint" and not f["native"] and f.get("ty_text", "").split("::")[0] != "arbitrary_int" for f in cc["fields"]):
+                continue        # an arbitrary-int type spelled in some other way (alias, literal text): leave the declaration as the user wrote it
+            b_units.append(decl_unit(dict(cc, bare_scope=True), docs=True, uid=u.uid + "/bare-scope"))
     with build.Lock():
         b_errors, b_st = cm.outcomes(b_units, art, "c18b", header=NO_STD_HEADER, iterate=True)
     cov["bare_scope_programs"] = len(b_units)
